@@ -499,3 +499,14 @@ def _(v):
     v.prove("substance_carries_name_and_composition", sub.name == "Na2CO3..7H2O(s)" and sub.composition == want["Na2CO3..7H2O(s)"] and sub.charge == 0)
     sp = [Species.from_formula("Na+(aq)", phases={"(aq)": 2}), Species.from_formula("Na+(cr)", phases=("(cr)",)), Species.from_formula("Na+(aq)", phases=("(cr)",))]
     v.prove("species_with_custom_phases", [x.composition for x in sp] == [{11: 1, 0: 1}] * 3 and [x.phase_idx for x in sp] == [2, 1, 0])
+    # custom phase suffixes are stripped also when the phase index is given explicitly (the two optional arguments together)
+    both = []
+    for f, comp in (("UO2+2(ads)", {92: 1, 8: 2, 0: 2}), ("CO(ads)", {6: 1, 8: 1}), ("Na+(aq)", {11: 1, 0: 1})):
+        for kw, idx in ((dict(phases={"(aq)": 0, "(ads)": 1}, phase_idx=1), 1), (dict(phases=("(ads)",), phase_idx=3), 3)):
+            try:
+                x = Species.from_formula(f, **kw)
+                if x.composition != comp or x.phase_idx != idx or x.name != f:
+                    both.append((f, kw, x.composition, x.phase_idx))
+            except Exception as ex:
+                both.append((f, kw, repr(ex)[:60]))
+    v.prove("species_with_custom_phases_and_explicit_index", not both, detail=repr(both[:3]))
